@@ -1136,9 +1136,40 @@ def LoopOk (cfg : Cfg) (gas : Nat) : Prop :=
   ∀ (fw : FW) (st : St) (acc : List Entry) (loose : Bool) (b) (st'),
     tokLoop cfg gas fw st acc loose = .ok (b, st') → fw.Ok → AllNlEnd fw.lines → EntriesOk acc → EntriesOk b.entries
 
+/-- the test at the head of `List.read`'s loop fires only inside a list (a leader is known) on a next marker of another type -/
+theorem otherMarkerType_some {ld : Option Str} {nm : Option (Nat × Nat × Str × Str)} (h : otherMarkerType ld nm = true) :
+    ∃ d m, ld = some d ∧ nm = some m ∧ sameMarkerType d m.2.2.1 = false := by
+  unfold otherMarkerType at h
+  split at h
+  · rename_i d m
+    exact ⟨d, m, rfl, rfl, by simpa using h⟩
+  · cases h
+
+theorem otherMarkerType_none_left (nm : Option (Nat × Nat × Str × Str)) : otherMarkerType none nm = false := by
+  unfold otherMarkerType; rfl
+
+theorem otherMarkerType_none_right (ld : Option Str) : otherMarkerType ld none = false := by
+  unfold otherMarkerType; cases ld <;> rfl
+
 theorem list_step (cfg : Cfg) (fuel : Nat) (hT : TokOk cfg fuel) (hL : ListOk cfg fuel) : ListOk cfg (fuel + 1) := by
     intro fw st ld nm acc r h hok hacc hl hnm
+    have hstop : ∀ (items : List Item) (fwEnd : FW) (stEnd : St) (rr), ItemsOk items → Same fw fwEnd →
+        (Res.ok ((match items with
+          | .mk inner loose i p l n g :: rest => Item.mk inner (decide (inner.length > 1) && loose) i p l n g :: rest
+          | [] => []).reverse, fwEnd, stEnd) : Res _) = .ok rr → Same fw rr.2.1 ∧ ItemsOk rr.1 := by
+      intro items fwEnd stEnd rr hi hs he
+      cases he
+      refine ⟨hs, itemsOk_reverse _ ?_⟩
+      cases items with
+      | nil => trivial
+      | cons x xs =>
+        cases x
+        simp only [ItemsOk, ItemOk] at hi ⊢
+        exact hi
     simp only [readList] at h
+    split at h
+    · -- a next marker of another type: the list ends before its item is read
+      exact hstop acc fw st r hacc (Same.refl fw) h
     split at h
     · cases h
     · rename_i il hil
@@ -1170,30 +1201,15 @@ theorem list_step (cfg : Cfg) (fuel : Nat) (hT : TokOk cfg fuel) (hL : ListOk cf
       · cases h
       · rename_i item itemLeader next fw' st' hres
         have hk := key item itemLeader next fw' st' hres
-        have hstop : ∀ (items : List Item) (fwEnd : FW) (rr), ItemsOk items → Same fw fwEnd →
-            (Res.ok ((match items with
-              | .mk inner loose i p l n g :: rest => Item.mk inner (decide (inner.length > 1) && loose) i p l n g :: rest
-              | [] => []).reverse, fwEnd, st') : Res _) = .ok rr → Same fw rr.2.1 ∧ ItemsOk rr.1 := by
-          intro items fwEnd rr hi hs he
-          cases he
-          refine ⟨hs, itemsOk_reverse _ ?_⟩
-          cases items with
-          | nil => trivial
-          | cons x xs =>
-            cases x
-            simp only [ItemsOk, ItemOk] at hi ⊢
-            exact hi
         have hacc' : ItemsOk (item :: acc) := ⟨hk.2.1, hacc⟩
         have hl' : AllNlEnd fw'.lines := by rw [hk.1.1]; exact hl
         split at h
         · split at h
-          · exact hstop acc _ r hacc (same_pos _ _ |> fun x => (hk.1.trans x)) h
-          · split at h
-            · exact hstop _ _ r hacc' hk.1 h
-            · have := hL fw' st' _ _ _ r h (FW.Ok.of_same hk.1 hok) hacc' hl' hk.2.2
-              exact ⟨hk.1.trans this.1, this.2⟩
+          · exact hstop _ _ _ r hacc' hk.1 h
+          · have := hL fw' st' _ _ _ r h (FW.Ok.of_same hk.1 hok) hacc' hl' hk.2.2
+            exact ⟨hk.1.trans this.1, this.2⟩
         · split at h
-          · exact hstop _ _ r hacc' hk.1 h
+          · exact hstop _ _ _ r hacc' hk.1 h
           · have := hL fw' st' _ _ _ r h (FW.Ok.of_same hk.1 hok) hacc' hl' hk.2.2
             exact ⟨hk.1.trans this.1, this.2⟩
 
